@@ -226,6 +226,18 @@ def probes(rng, tier):
             out.append(C.Probe(bool(ok), 'affine-derivative-%s-%s' % (kind, m),
                                '%s with pad_const=%r: derivative is the zero-padding operator and the operator is flagged nonlinear' % (kind, c),
                                None, {'shape': shape}))
+    # the set of pad modes Laplacian accepts is the set the self-adjointness theorem covers (lap_mode)
+    sp2 = odl.uniform_discr([0, 0], [3, 3], [3, 3])
+    for p in PMODES:
+        try:
+            odl.Laplacian(sp2, pad_mode=p)
+            accepted = True
+        except ValueError:
+            accepted = False
+        out.append(C.Probe(accepted == (p in LAP_MODES), 'laplacian-modes-%s' % p,
+                           'Laplacian accepts pad_mode=%r iff it is one of the six modes of lap_mode (C13/ProofsLap.v)' % p,
+                           "import odl\nsp=odl.uniform_discr([0,0],[3,3],[3,3])\ntry:\n    odl.Laplacian(sp,pad_mode=%r); acc=True\n"
+                           "except ValueError:\n    acc=False\nobserved=acc; expected=%r; ok=(acc==expected)\n" % (p, p in LAP_MODES)))
     # complex dtype: acts on real and imaginary parts separately
     for m, p in itertools.product(METHS, PMODES):
         n = rng.randint(3, 6)
@@ -245,10 +257,15 @@ LEVEL_TEXT = ('Proof: for the tables regenerated from finite_diff on every run, 
               '(short axes included), every entry and pad constant that each (method, base padding) pair equals the '
               'textbook stencil on the extended array / dx, and that for all 30 (method, padding) pairs the operator '
               'named by _ADJ_METHOD/_ADJ_PADDING is exactly minus the transpose (<Df,g> = -<f,D\'g> for all f,g). '
+              'Both statements are lifted to arrays of EVERY shape and every axis (Lib/AxisR: adjoint, extensionality '
+              'and additivity of apply-along-axis): PartialDerivative, Gradient* = -Divergence, Divergence* = -Gradient, '
+              'the Laplacian is self-adjoint with the SAME pad mode for the six modes the class accepts, and the '
+              'constant-padding variant is affine with the zero-padding scheme as exact difference quotient. '
               'order2 x forward/backward is proved to violate the literal statement (recorded finding) and what it '
               'computes instead is proved. The interpreter is tied to the code by an exact correspondence on all '
-              'modes x sizes 2..7.')
+              'modes x sizes 2..7 and on the N-d operators (1-3 d).')
 LEVEL_NOTE = ('Trusted: the translator (fail-closed, small grammar), the hand-written interpreter of sequential '
-              'out[k] = / += / -= statements (validated by the correspondence incl. aliasing on sizes 2-4), NumPy '
-              'slicing; exact arithmetic (rounding out of scope). Axioms: classical reals + funext as printed.')
-TECHNIQUE = 'Coq proof by list induction (summation by parts) over source-regenerated tables + in-Coq differential correspondence'
+              'out[k] = / += / -= statements (validated by the correspondence incl. aliasing on sizes 2-4), the N-d '
+              'composition model C13/ModelNd.v (validated by the N-d correspondence), NumPy slicing; exact arithmetic '
+              '(rounding out of scope); complex dtype validated by probes only. Axioms: classical reals + funext as printed.')
+TECHNIQUE = 'Coq proof by list induction (summation by parts, N-d lift through transposition lemmas) over source-regenerated tables + in-Coq differential correspondence'
